@@ -93,10 +93,13 @@ def dip_row(nv):
     return min(1, nv - 1)
 
 
+WHOLE = (426, 97, 112, 181, 468, 124, 159, 393, 271, 128, 123, 205, 134, 187, 236, 199, 275, 344, 283, 306, 267)
+
+
 def param_values(system, nv, ints=False, small=False, shape="smooth"):
     """nv lists of d independent parameters (values of the pivot components of laue_ref.invariant_basis).
     floats: distinct non-integer values, all different, varying with volume at parameter-specific rates;
-    ints: even integers (so that (c11-c12)/2 is an integer too);
+    ints: even integers (so that (c11-c12)/2 is an integer too); ints == "whole": generic whole numbers (see WHOLE);
     small: the LAST parameter lies in [0.31, 0.47] at every volume (used by C09 with drop_atol = 1.0);
     shape "dip": components that are RETAINED but pass within drop_atol of zero at exactly one volume (dip_row):
       the last independent parameter (a diagonal shear constant, with its dependents c55/c66 where the class has
@@ -110,10 +113,16 @@ def param_values(system, nv, ints=False, small=False, shape="smooth"):
     for i in range(nv):
         row = []
         for k in range(d):
-            if ints:
+            if ints == "whole":
+                # whole-number tables as printed by a DFT post-processing script (odd and even values such as 271, 468,
+                # 123): a least-squares solve returns many of them one ulp below/above the integer
+                row.append(float(WHOLE[k] + i * (11 + 3 * k) + (i * i * (k + 2)) % 7))
+            elif ints:
                 row.append(float(2 * (150 - 6 * k + (k * k) % 5) + 2 * i * (k + 2)))
             else:
                 row.append(310.37 - 12.83 * k + 0.3713 * ((k * k) % 7) + (3.17 + 0.77 * k) * i + 0.0531 * i * i)
+        if ints == "whole" and (row[0] - row[1]) % 2:
+            row[1] += 1.0         # c66 = (c11 - c12)/2 is then a whole number too (it may be a supplied integer column)
         if small and not ints:
             row[-1] = 0.31 + 0.04 * i
         if shape == "dip":
@@ -390,6 +399,9 @@ def fill_variants(system, extras):
     out = [(nv, rows, "smooth", DROPS[0], "none", "lower") for nv in NVS for rows in ROWS if not (rows == "reversed" and nv == 1)]
     if extras:
         out += [(2, "default", "smooth", DROPS[0], "none", "lower", "dir")]
+        # integer-versus-float column type: whole-number tables in int64 columns (5 and 2 volumes), every system
+        out += [(5, "default", "smooth", DROPS[0], "none", "lower", "empty", "int64"),
+                (2, "reversed", "smooth", DROPS[0], "none", "upper", "empty", "int64")]
     if extras:
         out += [(2, "default", "dip", drop, "none", "lower") for drop in DROPS]
         out += [(nv, "default", "dip", 0.1, "none", "lower") for nv in (1, 5)]
@@ -415,20 +427,25 @@ def run_fill(case):
     with scratch_cwd():
         for nv, rows, shape, drop, z, lcase, *rest in fill_variants(s, case.get("extras", False)):
             cwd = rest[0] if rest else "empty"
-            E = expected_tensor(s, nv, shape=shape)
+            ints = len(rest) > 1 and rest[1] == "int64"
+            E = expected_tensor(s, nv, shape=shape, ints="whole" if ints else False)
             S = with_vanishing(s, S0, z)
-            table = relabel_rows(build_table(s, S, E, nv, case=lcase), rows)
+            table = relabel_rows(build_table(s, S, E, nv, case=lcase, ints=ints), rows)
+            if ints and not all(str(table[c].dtype) == "int64" for c in table.columns):
+                raise HarnessError("integer table was not built with int64 columns")
             vin = table["V"].to_numpy().copy()
             nfill += 1
             dev = ([f"rows-{rows}"] if rows != "default" else []) + ([shape] if shape != "smooth" else []) + \
                   ([f"drop{drop:g}"] if drop != DROPS[0] else []) + ([f"z-{z}"] if z != "none" else []) + \
-                  ([f"case-{lcase}"] if lcase != "lower" else []) + ([f"cwd-{cwd}"] if cwd != "empty" else [])
+                  ([f"case-{lcase}"] if lcase != "lower" else []) + ([f"cwd-{cwd}"] if cwd != "empty" else []) + \
+                  (["int64"] if ints else [])
             tag = ":".join(["c08:fill"] + dev)
             kw = {} if drop == DROPS[0] else {"drop_atol": drop}
             note = f" row labels {list(table.index)}" + (f" value shape {shape}" if shape != "smooth" else "") + \
                    (f" drop_atol={drop}" if kw else "") + (f" with vanishing components supplied as 0 ({z})" if z != "none" else "") + \
                    (f" columns {list(table.columns)}" if lcase != "lower" else "") + \
-                   (f" in a working directory that contains the directory ./{s}/" if cwd == "dir" else "")
+                   (f" in a working directory that contains the directory ./{s}/" if cwd == "dir" else "") + \
+                   (f" whole-number table in int64 columns, e.g. {names(S)[0]} = {table.iloc[:, 1].tolist()}" if ints else "")
             if cwd == "dir":
                 os.mkdir(s)
             try:
@@ -461,22 +478,24 @@ def run_elastdata(case):
     z, shape, drop = case.get("z", "none"), case.get("shape", "smooth"), case.get("drop", DROPS[0])
     keyorder = case.get("keyorder", "same")
     cwd = case.get("cwd", "empty")
+    ints = bool(case.get("ints"))
     S = L.mask_to_subset(s, mask)
     if not L.is_sufficient(s, S):
         raise HarnessError(f"{s}: mask {mask} is not sufficient")
     S = with_vanishing(s, S, z)
-    E = expected_tensor(s, nv, shape=shape)
+    E = expected_tensor(s, nv, shape=shape, ints="whole" if ints else False)
     vol = volumes(nv)
     symmetry = {"system": s}
     if case["full_keys"]:
         symmetry.update(DEFAULT_SYMMETRY)
     if drop != DROPS[0]:
         symmetry["drop_atol"] = drop
-    data = make_elastdata(S, E, vol, keyorder)
+    data = make_elastdata(S, E, vol, keyorder, ints=ints)
     viol = []
     tag = (f"apply_symetry_on_elast_data(ElastData[{','.join(names(S))}] x {nv} volumes, {symmetry})"
            + (f" per-volume key order {keyorder}: {[names(key_order(S, i, keyorder))[:3] for i in range(nv)]}..." if keyorder != "same" else "")
-           + (f" value shape {shape}" if shape != "smooth" else "") + (f" vanishing components listed as 0 ({z})" if z != "none" else ""))
+           + (f" value shape {shape}" if shape != "smooth" else "") + (f" vanishing components listed as 0 ({z})" if z != "none" else "")
+           + (" whole-number table of Python ints" if ints else ""))
     with scratch_cwd():
         if cwd == "dir":
             os.mkdir(s)
@@ -492,7 +511,7 @@ def run_elastdata(case):
         data = ret       # tolerate a functional variant
     check_elastdata(data, s, S, E, vol, tag, viol, "c08:elastdata", drop=drop)
     return {"viol": dedupe(viol), "outcome": f"elastdata:{s}:{'ok' if not viol else 'wrong'}",
-            "key": f"elastdata:{s}:{mask}:{nv}:{case['full_keys']}:{z}:{shape}:{drop}:{keyorder}:{cwd}"}
+            "key": f"elastdata:{s}:{mask}:{nv}:{case['full_keys']}:{z}:{shape}:{drop}:{keyorder}:{cwd}:{ints}"}
 
 
 KEYORDERS = ("same", "alt-reversed", "rotated")
@@ -511,14 +530,15 @@ def key_order(S, i, keyorder):
     raise HarnessError(f"unknown key order {keyorder}")
 
 
-def make_elastdata(S, E, vol, keyorder="same"):
+def make_elastdata(S, E, vol, keyorder="same", ints=False):
     from cij.io.traditional.elast_dat import ElastData, ElastVolumeData
     from cij.util import c_
     from collections import OrderedDict
     nv = len(vol)
     data = ElastData(float(vol[0]), nv, 120.5, [], [])
     for i in range(nv):
-        data.volumes.append(ElastVolumeData(float(vol[i]), OrderedDict((c_(*L.PAIRS21[j]), float(E[j, i])) for j in key_order(S, i, keyorder))))
+        data.volumes.append(ElastVolumeData(float(vol[i]), OrderedDict(
+            (c_(*L.PAIRS21[j]), int(E[j, i]) if ints else float(E[j, i])) for j in key_order(S, i, keyorder))))
     return data
 
 
@@ -789,6 +809,7 @@ def explore(ctx):
                         for z in ("zeros", "zero-one"):
                             cases.append({"kind": "elastdata", "system": s, "mask": mask, "nv": nv, "full_keys": fk, "z": z})
                 cases.append({"kind": "elastdata", "system": s, "mask": mask, "nv": nv, "full_keys": False, "cwd": "dir"})
+                cases.append({"kind": "elastdata", "system": s, "mask": mask, "nv": 5 if nv == 2 else nv, "full_keys": False, "ints": True})
                 # per-volume dict key order (same key set, different insertion order at different volumes)
                 if nv > 1:
                     for ko in KEYORDERS[1:]:
@@ -825,6 +846,7 @@ def explore(ctx):
                                                   "histories": len(cases)}
     ctx.notes["history_alphabet"] = {"ops": list(HISTORY_OPS), "depth": depth, "histories_per_system": len(cases) // len(L.SYSTEMS)}
     ctx.notes["row_label_alphabet"] = list(ROWS)
+    ctx.notes["column_type_alphabet"] = ["float64", "int64 (whole-number tables, all nine systems)"]
     ctx.notes["letter_case_alphabet"] = list(CASES)
     ctx.notes["per_volume_key_order_alphabet"] = list(KEYORDERS)
 
